@@ -142,11 +142,19 @@ fn inject(d: &mut Driver, ev: &Ev, problems: &mut Vec<Problem>, obs_log: &mut Ve
         Ev::ReadError => d.h.io().expect("io").read_error(std::io::ErrorKind::ConnectionReset),
         Ev::Eof => d.h.io().expect("io").eof(),
         Ev::WriteErrorNext => d.h.io().expect("io").set_write_mode(WriteMode::Error(std::io::ErrorKind::BrokenPipe)),
+        Ev::WriteBlockNext(n) => d.h.io().expect("io").set_write_mode(WriteMode::BlockAfter(*n)),
+        Ev::WriteUnblock => d.h.io().expect("io").set_write_mode(WriteMode::Accept),
+        Ev::AdvanceBy(ms) => crate::sim::advance(*ms),
         Ev::AdvanceToNext => crate::sim::advance(next_timer.unwrap() - before_now),
         Ev::Advance1 => crate::sim::advance(1),
         Ev::AdvanceToJustBefore => crate::sim::advance(next_timer.unwrap() - 1 - before_now),
     }
 }
+
+/// When set (to a property's aspects), `run_path` does not stop at a divergence that concerns only
+/// *other* aspects: C03 judges wire bytes only, and a wire divergence that follows a completion
+/// divergence would otherwise never be reached. One check runs per process, so a global is enough.
+pub static KEEP_GOING_UNLESS: std::sync::Mutex<Option<String>> = std::sync::Mutex::new(None);
 
 /// execute one path from a fresh task; stops at the first divergence from the model
 pub fn run_path(cfg: &SmCfg, events: &[Ev]) -> PathResult {
@@ -166,6 +174,7 @@ pub fn run_path(cfg: &SmCfg, events: &[Ev]) -> PathResult {
     };
     let mut problems = vec![];
     let mut obs_log = vec![];
+    let keep: Option<String> = KEEP_GOING_UNLESS.lock().unwrap().clone();
     // first poll
     let e = d.model.start();
     let ok = d.h.settle();
@@ -181,7 +190,13 @@ pub fn run_path(cfg: &SmCfg, events: &[Ev]) -> PathResult {
         let ok = d.h.settle();
         compare(&mut d, &e, ok, n_ios, &mut problems, &mut obs_log, i);
         if !problems.is_empty() {
-            break;
+            let keep_going = match &keep {
+                Some(aspects) => !problems.iter().any(|p| aspects.contains(p.aspect) || p.aspect == 'P' || p.sig == "no-attempt-pending"),
+                None => false,
+            };
+            if !keep_going {
+                break;
+            }
         }
     }
     PathResult { problems, model: d.model, obs: obs_log }
@@ -610,6 +625,11 @@ fn class_name(c: &OutClass) -> &'static str {
 pub fn epilogue(model: &ClientModel) -> Vec<Ev> {
     let mut m = model.clone();
     let mut v = vec![];
+    if matches!(m.phase, Phase::Writing { .. }) {
+        // a task blocked in a write never ends by itself: let the transport drain first
+        v.push(Ev::WriteUnblock);
+        m.apply(&Ev::WriteUnblock);
+    }
     for h in 0..m.handles.len() {
         if m.handles[h] {
             v.push(Ev::DropHandle(h));
@@ -682,8 +702,10 @@ fn rec(x: &Explore, path: &mut Vec<Ev>, dev: usize, st: &mut Stats) {
     st.transitions += path.len() as u64;
     st.state(&res.model);
     if !res.problems.is_empty() {
-        judge(x, path, &res, st, "");
-        return;
+        let relevant = judge(x, path, &res, st, "");
+        if relevant || KEEP_GOING_UNLESS.lock().unwrap().is_none() {
+            return;
+        }
     }
     if let Some(last) = path.last() {
         st.class(ev_name(last));
@@ -768,6 +790,9 @@ pub fn ev_name(e: &Ev) -> &'static str {
         Ev::ReadError => "ev:read-error",
         Ev::Eof => "ev:eof",
         Ev::WriteErrorNext => "ev:write-error-next",
+        Ev::WriteBlockNext(_) => "ev:write-block-next",
+        Ev::WriteUnblock => "ev:write-unblock",
+        Ev::AdvanceBy(_) => "ev:advance-by",
         Ev::AdvanceToNext => "ev:advance-to-next",
         Ev::Advance1 => "ev:advance-1ms",
         Ev::AdvanceToJustBefore => "ev:advance-to-just-before",
@@ -836,7 +861,10 @@ pub fn replay(v: &serde_json::Value) -> Vec<(String, String)> {
     let cfg: SmCfg = serde_json::from_value(v["cfg"].clone()).unwrap();
     let events: Vec<Ev> = serde_json::from_value(v["events"].clone()).unwrap();
     let aspects = v["aspects"].as_str().unwrap_or("CWTLDP").to_string();
+    // a divergence in an aspect the property does not judge must not hide a later one it does
+    *KEEP_GOING_UNLESS.lock().unwrap() = Some(aspects.clone());
     let res = run_path(&cfg, &events);
+    *KEEP_GOING_UNLESS.lock().unwrap() = None;
     res.problems
         .into_iter()
         .filter(|p| aspects.contains(p.aspect) || p.aspect == 'P')
@@ -859,6 +887,24 @@ pub fn replay_tie(v: &serde_json::Value) -> Vec<(String, String)> {
         }
     }
     vec![]
+}
+
+/// back-pressure events: arm a blocked write while idle, let time pass while a write is blocked
+pub fn write_block_extra(m: &ClientModel) -> Vec<Ev> {
+    let mut v = vec![];
+    match &m.phase {
+        Phase::Idle if m.write_block_armed.is_none() && !m.write_error_armed && m.next_req < 3 => {
+            for n in [0usize, 1, 7, 11] {
+                v.push(Ev::WriteBlockNext(n));
+            }
+        }
+        Phase::Writing { .. } => {
+            v.push(Ev::AdvanceBy(1));
+            v.push(Ev::AdvanceBy(5));
+        }
+        _ => {}
+    }
+    v
 }
 
 fn default_cost(e: &Ev) -> usize {
@@ -903,6 +949,23 @@ pub fn check_c10(tier: &str) -> i32 {
         let st = explore(&x, &[vec![]]);
         rep.phase(&format!("from cold start, cap={} N={:?}", cfg.cap, cfg.max_timeouts), st, json!({"cfg": cfg}));
     }
+    // back-pressure: the transport takes only the first n bytes of a request frame and then blocks;
+    // time passes, calls are made, the transport drains: the request is still transmitted whole and
+    // completes exactly once, by its reply or by a timeout counted from the end of its transmission
+    {
+        let cfg = &cfgs[0];
+        let filter = |e: &Ev, _m: &ClientModel| {
+            matches!(e, Ev::ReplyOk | Ev::AdvanceToNext | Ev::WriteUnblock | Ev::Eof | Ev::Disable(0) | Ev::Enable(0) | Ev::DropHandle(_) | Ev::ConnectOk | Ev::AbortTask)
+                || matches!(e, Ev::Submit { handle: 0, style: MStyle::Future | MStyle::Callback, .. })
+        };
+        let cost = |e: &Ev| match e {
+            Ev::Eof | Ev::Disable(_) | Ev::DropHandle(_) | Ev::AbortTask | Ev::Enable(_) => 1,
+            _ => 0,
+        };
+        let x = Explore { prop: "C10", cfg, depth: if thorough { 9 } else { 8 }, max_dev: 1, max_requests: 2, aspects: "CW", filter: &filter, cost: &cost, extra: &write_block_extra };
+        let st = explore(&x, &[connected_prefix()]);
+        rep.phase("back-pressure: request frame partly written, transport blocked", st, json!({"cfg": cfg, "accepted_bytes": [0, 1, 7, 11]}));
+    }
     // ties: a request or command queued in the very poll in which a timer fires, a connection
     // attempt resolves or bytes / EOF arrive
     for cfg in &cfgs[..2] {
@@ -916,7 +979,7 @@ pub fn check_c10(tier: &str) -> i32 {
         let st = explore_session(&x);
         rep.phase(&format!("RTU request loop, cap={cap} N={n:?}"), st, json!({"cfg": scfg}));
     }
-    for c in ["ev:submit-future", "ev:submit-callback", "ev:submit-ffi", "ev:reply-ok", "ev:reply-partial", "ev:reply-rest", "ev:read-error", "ev:eof", "ev:write-error-next", "ev:advance-to-next", "ev:disable", "ev:shutdown", "ev:drop-handle", "ev:abort-task", "ev:connect-fail", "ev:bad-header", "ev:reply-stale", "tie:caller-first"] {
+    for c in ["ev:submit-future", "ev:submit-callback", "ev:submit-ffi", "ev:reply-ok", "ev:reply-partial", "ev:reply-rest", "ev:read-error", "ev:eof", "ev:write-error-next", "ev:advance-to-next", "ev:disable", "ev:shutdown", "ev:drop-handle", "ev:abort-task", "ev:connect-fail", "ev:bad-header", "ev:reply-stale", "tie:caller-first", "ev:write-block-next", "ev:write-unblock", "ev:advance-by"] {
         rep.require_class(c);
     }
     rep.assumptions.push("a reply arriving in the same virtual millisecond as its deadline may be accepted or not (tokio select! tie): not judged".into());
@@ -1079,6 +1142,39 @@ pub fn check_c12(tier: &str) -> i32 {
         let x = Explore { prop: "C12", cfg: &cfg, depth: depth + 2, max_dev: 3, max_requests: 0, aspects: "TCLW", filter: &filter, cost: &cost, extra: &c12_extra };
         let st = explore(&x, &[connected_prefix()]);
         rep.phase(&format!("N={n:?}"), st, json!({"cfg": cfg}));
+    }
+    // back-pressure: the response timeout is counted from the end of the transmission
+    {
+        let mut st = Stats::default();
+        let cfg = SmCfg { cap: 16, max_timeouts: Some(2), retry_min: 3, retry_max: 12, handles: 1, decode: (0, 0, 0) };
+        for n in [0usize, 1, 7, 11] {
+            for t in [1u64, 7] {
+                for blocked_for in [1u64, 7, 50] {
+                    let sub = Ev::Submit { handle: 0, style: MStyle::Future, timeout_ms: t };
+                    let mut paths = vec![vec![Ev::Enable(0), Ev::ConnectOk, Ev::WriteBlockNext(n), sub.clone(), Ev::AdvanceBy(blocked_for), Ev::WriteUnblock, Ev::AdvanceToNext, sub.clone(), Ev::ReplyOk]];
+                    if t > 2 {
+                        paths.push(vec![Ev::Enable(0), Ev::ConnectOk, Ev::WriteBlockNext(n), sub.clone(), Ev::AdvanceBy(blocked_for), Ev::WriteUnblock, Ev::AdvanceToJustBefore, Ev::ReplyOk, sub.clone(), Ev::ReplyOk]);
+                    }
+                    for path in paths {
+                        let r = run_path(&cfg, &path);
+                        st.evaluations += 1;
+                        st.traces += 1;
+                        st.transitions += path.len() as u64;
+                        st.class("timeout-after-blocked-write");
+                        st.state(&r.model);
+                        st.observe(&r.obs);
+                        for p in &r.problems {
+                            st.violation(Violation {
+                                signature: format!("blocked-write:{}", p.sig),
+                                summary: format!("path {:?} step {}: {}", path, p.step, p.desc),
+                                replay: json!({"kind": "client-sm", "property": "C12", "cfg": cfg, "events": path, "aspects": "TCLW"}),
+                            });
+                        }
+                    }
+                }
+            }
+        }
+        rep.phase("response timeout after a blocked write", st, json!({}));
     }
     // ties: a request queued (or a handle call made) in the very poll in which a deadline expires
     {
@@ -1499,6 +1595,9 @@ pub fn run_session_path(cfg: &SessCfg, events: &[Ev]) -> PathResult {
             Ev::ReadError => h.io.read_error(std::io::ErrorKind::ConnectionReset),
             Ev::Eof => h.io.eof(),
             Ev::WriteErrorNext => h.io.set_write_mode(WriteMode::Error(std::io::ErrorKind::BrokenPipe)),
+            Ev::WriteBlockNext(n) => h.io.set_write_mode(WriteMode::BlockAfter(*n)),
+            Ev::WriteUnblock => h.io.set_write_mode(WriteMode::Accept),
+            Ev::AdvanceBy(ms) => crate::sim::advance(*ms),
             Ev::AdvanceToNext => crate::sim::advance(next_timer.unwrap() - before_now),
             Ev::Advance1 => crate::sim::advance(1),
             Ev::AdvanceToJustBefore => crate::sim::advance(next_timer.unwrap() - 1 - before_now),
